@@ -21,6 +21,7 @@ fn(U + "filter_pseudo_headers", params={"headers": "hdrs"}, returns="hdrs", modi
 # C12.headers is transcribed from the statement: CR, LF or NUL never reach the wire.
 fn(U + "build_and_validate_headers", params={"headers": "anyhdr"}, returns="hdrs", modifies=[], effect="atomic",
    raises={"Exception": None},
-   loops={0: {"locals": {"name": "anyhdr", "value": "anyhdr"}}},
+   loops={0: {"locals": {"name": "anyhdr", "value": "anyhdr", "validated_headers": "hdrs"},
+              "invariant": [("C12.headers.loop", "no_ctl_chars(validated_headers)", "C12")]}},
    ensures=[("C12.headers.no-ctl", "no_ctl_chars(result)", "C12")],
    props=("C12",))
